@@ -66,7 +66,7 @@ $(B)/thread_c$(1)/interp_thread.o: $(H)/interp_thread.cpp
 $(B)/thread_c$(1)/thread_harness: $(B)/thread_c$(1)/interp_thread.o $(foreach s,$(THREAD_SRCS),$(B)/thread_c$(1)/repo_$(s).o) $(B)/common/vsched_rt.o $(B)/common/gen_thread.o $(B)/common/thread_main.o
 	$(CXX) $(STD) $(SAN) -pthread $$^ -lrapidcheck -o $$@
 endef
-THREAD_CAPS := 1 2 3 4 8
+THREAD_CAPS := 1 2 3 4 5 6 7 8
 $(foreach c,$(THREAD_CAPS),$(eval $(call THREAD_VARIANT,$(c))))
 thread: $(foreach c,$(THREAD_CAPS),$(B)/thread_c$(c)/thread_harness)
 
